@@ -11,8 +11,46 @@ import (
 	"verif/harness/lib"
 )
 
+// bomCompositions: every way to deliver the first 1..5 bytes in reads of 1..3 bytes (the rest comes in
+// one piece): the reads a reader entry point may have to top up before it can see a byte order mark.
+var bomCompositions = func() [][]int {
+	var out [][]int
+	var rec func(cur []int, sum int)
+	rec = func(cur []int, sum int) {
+		if sum > 0 {
+			out = append(out, append([]int{}, cur...))
+		}
+		for p := 1; p <= 3; p++ {
+			if sum+p <= 5 {
+				rec(append(cur, p), sum+p)
+			}
+		}
+	}
+	rec(nil, 0)
+	return out
+}()
+
+// startsLikeBom: inputs whose first byte is 0xEF get the BOM chunkings, single and multi-document
+func startsLikeBom(in []byte) bool { return len(in) > 0 && in[0] == 0xEF }
+
 // chunkings to try for an input (nil = whole input through bytes.Reader)
 func chunkingsFor(in []byte, idx int, tok bool) [][]int {
+	res := chunkingsBase(in, idx, tok)
+	if startsLikeBom(in) {
+		for _, c := range bomCompositions {
+			sum := 0
+			for _, p := range c {
+				sum += p
+			}
+			if sum-c[len(c)-1] < len(in) { // the last read of the composition still gets a byte
+				res = append(res, c)
+			}
+		}
+	}
+	return res
+}
+
+func chunkingsBase(in []byte, idx int, tok bool) [][]int {
 	n := len(in)
 	res := [][]int{nil}
 	if n == 0 {
@@ -93,7 +131,7 @@ func runAll(w int, in []byte, idx int) []ran {
 		}
 		for ci, ch := range chunkingsFor(in, idx, tok) {
 			do(runSpec{tok: tok, reader: true, multi: true, funcs: fn, chunks: ch})
-			if ci <= 1 && (!tok || idx%4 == 0) {
+			if (ci <= 1 && (!tok || idx%4 == 0)) || startsLikeBom(in) {
 				do(runSpec{tok: tok, reader: true, multi: false, funcs: fn, chunks: ch})
 			}
 		}
@@ -167,6 +205,9 @@ func modelAgree(a, b modelAns, tok, multi bool) bool {
 
 // repairSets: the fast-path deviations switched off, smallest sets first (driver option letters)
 var repairSets = []string{"K", "M", "I", "KM", "KI", "MI", "KMI"}
+
+// whole, partial and broken byte order marks
+var bomPrefixes = [][]byte{{0xEF, 0xBB, 0xBF}, {0xEF}, {0xEF, 0xBB}, {0xEF, 0xBB, 0x00}, {0xEF, 0x00}, {0xEF, 0xBF, 0xBB}, {0xEF, 0xBB, 0xBF, 0xEF, 0xBB, 0xBF}}
 
 var repairID = map[byte]string{'K': "C03sen-token-end-chunk", 'M': "C03sen-newline-skip-chunk", 'I': "C03sen-int19"}
 
@@ -531,6 +572,43 @@ func runStreams() {
 			transitionCases(full, func(b []byte) { emit(b); rep.Count("stream.transition", 1) })
 			rep.Exhaustive = append(rep.Exhaustive, fmt.Sprintf("contexts x %d mode prefixes x 256 bytes x suffixes", len(modePrefixes)))
 		}
+		if on("bom") {
+			// byte order marks: whole, partial and broken ones in front of the corpus, of every short
+			// string over the tiny alphabet and of a few documents; inputs that start with 0xEF are run
+			// under every composition of the first 1..5 bytes into reads of 1..3 bytes (chunkingsFor)
+			var bases [][]byte
+			if *corpus != "" {
+				if data, err := os.ReadFile(*corpus); err == nil {
+					for _, line := range strings.Split(string(data), "\n") {
+						line = strings.TrimSpace(line)
+						if line == "" || strings.HasPrefix(line, "#") {
+							continue
+						}
+						if b, err := lib.UnhexF(strings.Fields(line)[0]); err == nil {
+							bases = append(bases, b)
+						}
+					}
+				}
+			}
+			for _, d := range []string{"", "{\"a\":[1,true,\"x\"]}", "1", "[]", "a", "\"s\"", " 1", "\n[1]", "1 2", "{a:1}", "[1 2]\n[3]", "// c\n1", "12", "123", "1234"} {
+				bases = append(bases, []byte(d))
+			}
+			enumLen := 2
+			if full {
+				enumLen = 3
+			}
+			enumStrings(alphaTiny, enumLen, func(b []byte) { bases = append(bases, append([]byte{}, b...)) })
+			for pi, pre := range bomPrefixes {
+				for _, b := range bases {
+					if pi >= 3 && len(b) > 2 && !full {
+						continue
+					}
+					emit(append(append([]byte{}, pre...), b...))
+					rep.Count("stream.bom_prefixed", 1)
+				}
+			}
+			rep.Exhaustive = append(rep.Exhaustive, fmt.Sprintf("%d whole/partial/broken BOM prefixes x (corpus, all strings of length <= %d over %q, %d documents), each under all %d compositions of the first 1..5 bytes into reads of 1..3 bytes, ParseReader and Tokenizer.Load, single and multi", len(bomPrefixes), enumLen, alphaTiny, 15, len(bomCompositions)))
+		}
 		g := &senGen{r: lib.NewRng(*seed)}
 		nDocs := 7000
 		if full {
@@ -561,5 +639,5 @@ func runStreams() {
 		}
 		flush()
 	})
-	rep.Rule = "inputs: corpus, exhaustive strings over class-representative alphabets of sen/maps.go, every (context, mode prefix, byte, suffix), seeded random SEN documents (tokens, both quote delimiters, comments, '+', optional commas, token functions, number shapes) with byte mutations and multi-document inputs, tokens straddling offset 4096; each input through sen.Parser.Parse/ParseReader and sen.Tokenizer.Parse/Load x {single, multi} x chunkings (whole, 1-byte, every split of short inputs, pseudo-random splits, 4096-straddling), every call on a fresh instance under recover and a watchdog; duplicates dropped before running (64-bit hash); distinct_nontrivial counts the distinct inputs of length >= 2"
+	rep.Rule = "inputs: corpus, exhaustive strings over class-representative alphabets of sen/maps.go, every (context, mode prefix, byte, suffix), seeded random SEN documents (tokens, both quote delimiters, comments, '+', optional commas, token functions, number shapes) with byte mutations and multi-document inputs, tokens straddling offset 4096, whole/partial/broken byte order marks in front of the corpus, of short strings and of documents (every input that starts with 0xEF additionally under every composition of its first 1..5 bytes into reads of 1..3 bytes, single and multi); each input through sen.Parser.Parse/ParseReader and sen.Tokenizer.Parse/Load x {single, multi} x chunkings (whole, 1-byte, every split of short inputs, pseudo-random splits, 4096-straddling), every call on a fresh instance under recover and a watchdog; duplicates dropped before running (64-bit hash); distinct_nontrivial counts the distinct inputs of length >= 2"
 }
